@@ -69,6 +69,8 @@ func abstractKind(k string) string {
 	switch k {
 	case "close":
 		return "close"
+	case "sendc", "encodec":
+		return "txc"
 	}
 	return "tx"
 }
@@ -92,6 +94,11 @@ func errClass(err error) string {
 type msgBody struct {
 	XMLName xml.Name `xml:"message"`
 	ID      string   `xml:"id,attr"`
+	Body    string   `xml:"body"`
+}
+
+type innerBody struct {
+	XMLName xml.Name `xml:"urn:vt:inner q"`
 	Body    string   `xml:"body"`
 }
 
@@ -130,6 +137,20 @@ func doCall(sess *xmpp.Session, kind, mark string, big bool) error {
 		return err
 	case "encodemsgerr":
 		_, err := sess.EncodeMessageElement(ctx, msgBody{ID: "inner", Body: text}, stanza.Message{ID: mark, Type: stanza.ErrorMessage})
+		return err
+	case "sendc", "encodec":
+		// the context of the call is done before the call starts
+		cctx, cancel := context.WithCancel(ctx)
+		cancel()
+		if kind == "sendc" {
+			return sess.Send(cctx, stanza.Message{ID: mark}.Wrap(body()))
+		}
+		return sess.Encode(cctx, msgBody{ID: mark, Body: text})
+	case "encodeiqres":
+		_, err := sess.EncodeIQElement(ctx, innerBody{Body: text}, stanza.IQ{ID: mark, Type: stanza.ResultIQ})
+		return err
+	case "encodepreserr":
+		_, err := sess.EncodePresenceElement(ctx, innerBody{Body: text}, stanza.Presence{ID: mark, Type: stanza.ErrorPresence})
 		return err
 	case "tw":
 		w := sess.TokenWriter()
@@ -304,6 +325,19 @@ func runSchedule(sc Scenario, choices []int) result {
 				Enabled: func() bool { return fed == i },
 				Do: func() {
 					fed++
+					if it == "dlset" {
+						// SetCloseDeadline with a time virtual time has not reached yet
+						lg.Add(vt.Ev{"ev": "deadline_set"})
+						sess.SetCloseDeadline(time.Now().Add(24 * time.Hour))
+						return
+					}
+					if it == "dlfire" {
+						// virtual time passes the deadline that was set (whatever the transport
+						// has been told since)
+						lg.Add(vt.Ev{"ev": "deadline"})
+						conn.ExpireRead()
+						return
+					}
 					if it == "deadline" {
 						// the close deadline passes (a deadline already in the past: no real time involved)
 						lg.Add(vt.Ev{"ev": "deadline"})
@@ -515,7 +549,7 @@ func main() {
 			}
 			script := []string{}
 			for _, it := range sc.Script {
-				if it != "deadline" {
+				if it != "deadline" && it != "dlset" && it != "dlfire" {
 					script = append(script, it)
 				}
 			}
